@@ -42,8 +42,8 @@ static Reg r_c01_addsub({ "C01.addsub", "C01", "rc",
   c01_addsub_check, 16, c01_addsub_decode, nullptr });
 
 // ---- C01.shape: the operator inlined into callers that know something about the operands -------
-enum Shape { SH_add_pp, SH_add_nn, SH_sub_pn, SH_sub_np, SH_add_fpp, SH_add_fnn, SH_dbl, SH_tpl, SH_sub_neg, SH_add_isnan, SH_sub_isnan, SH_loop_add, SH_loop_sub, SH_chain, SH_add3, SH_add3r, SH_addsub, SH_COUNT };
-static const int kShapeEntry[SH_COUNT] = { E_add_pp, E_add_nn, E_sub_pn, E_sub_np, E_add_fpp, E_add_fnn, E_dbl, E_tpl, E_sub_neg, E_add_isnan, E_sub_isnan, E_loop_add, E_loop_sub, E_chain, E_add3, E_add3r, E_addsub };
+enum Shape { SH_add_pp, SH_add_nn, SH_sub_pn, SH_sub_np, SH_add_fpp, SH_add_fnn, SH_dbl, SH_tpl, SH_sub_neg, SH_add_isnan, SH_sub_isnan, SH_loop_add, SH_loop_sub, SH_chain, SH_add3, SH_add3r, SH_addsub, SH_addeq_self, SH_subeq_self, SH_COUNT };
+static const int kShapeEntry[SH_COUNT] = { E_add_pp, E_add_nn, E_sub_pn, E_sub_np, E_add_fpp, E_add_fnn, E_dbl, E_tpl, E_sub_neg, E_add_isnan, E_sub_isnan, E_loop_add, E_loop_sub, E_chain, E_add3, E_add3r, E_addsub, E_addeq_self, E_subeq_self };
 
 // expected value of a shape in the exact model; MV::UNSPEC when an operand of a later step is NaN
 static MV c01_shape_model(int sh, int64_t a, int64_t b, int64_t c, bool& isbool)
@@ -55,7 +55,8 @@ static MV c01_shape_model(int sh, int64_t a, int64_t b, int64_t c, bool& isbool)
     case SH_add_nn: case SH_add_fnn: return (a < 0 && b < 0) ? m_add(A, B) : MV::fin(0);
     case SH_sub_pn: return (a > 0 && b < 0) ? m_sub(A, B) : MV::fin(0);
     case SH_sub_np: return (a < 0 && b > 0) ? m_sub(A, B) : MV::fin(0);
-    case SH_dbl: return m_add(A, A);
+    case SH_dbl: case SH_addeq_self: return m_add(A, A);
+    case SH_subeq_self: return m_sub(A, A);
     case SH_tpl: return m_add(m_add(A, A), A);
     case SH_sub_neg: return m_sub(A, MV::fin(-(i128)a));
     case SH_add_isnan: { isbool = true; MV r = m_add(A, B); return MV::fin(r.k == MV::NAN_ ? 1 : 0); }
@@ -96,7 +97,7 @@ static Args c01_shape_decode(Ctx&, Dec& d)
     case SH_add_nn: case SH_add_fnn: a = -pos(a); b = mode ? fin_clamp(-Tp - a) : -pos(b); if (b >= 0) b = -1; break;
     case SH_sub_pn: a = pos(a); b = mode ? fin_clamp((i128)a - Tp) : -pos(b); if (b >= 0) b = -1; break;
     case SH_sub_np: a = -pos(a); b = mode ? fin_clamp((i128)a + Tp) : pos(b); if (b <= 0) b = 1; break;
-    case SH_dbl: case SH_sub_neg: if (mode) a = fin_clamp(T / 2 + (mode == 2 ? 1 : 0)); break;
+    case SH_dbl: case SH_sub_neg: case SH_addeq_self: case SH_subeq_self: if (mode) a = fin_clamp(T / 2 + (mode == 2 ? 1 : 0)); break;
     case SH_tpl: if (mode) { a = fin_clamp(T / 3 + (mode - 1)); if (!m_finite128((i128)a + a)) a = a / 2; } else if (!m_finite128((i128)a + a)) a /= 2; break;
     case SH_add_isnan: if (mode) b = fin_clamp(T - a); break;
     case SH_sub_isnan: if (mode) b = fin_clamp((i128)a - T); break;
@@ -111,11 +112,11 @@ static Args c01_shape_decode(Ctx&, Dec& d)
     case SH_addsub: if (mode) b = fin_clamp(T - a); break;
   }
   if (sh != SH_loop_add && sh != SH_loop_sub && sh != SH_chain && sh != SH_add3 && sh != SH_add3r) c = 0;
-  if (sh == SH_dbl || sh == SH_tpl || sh == SH_sub_neg) b = 0;
+  if (sh == SH_dbl || sh == SH_tpl || sh == SH_sub_neg || sh == SH_addeq_self || sh == SH_subeq_self) b = 0;
   return { sh, a, b, c };
 }
 static Reg r_c01_shape({ "C01.shape", "C01", "rc",
-  "call shapes in which the operator is inlined into a caller: operands whose signs the caller already tested (raw and fixed_t comparisons), x+x, x+x+x, x-(-x), isnan(a+b), accumulation loops acc+=step / acc-=step (n<=16), chained x+=b;x-=c, three-term sums; operands built to satisfy the guard with the exact result targeted at the range boundary; oracle: exact model step by step (a step whose operand is already NaN is outside the property and the case is skipped); non-trivial = a step overflows or the result is within 2^17 of +-MAXF",
+  "call shapes in which the operator is inlined into a caller: operands whose signs the caller already tested (raw and fixed_t comparisons), x+x, x+x+x, x-(-x), x+=x and x-=x on the same object, isnan(a+b), accumulation loops acc+=step / acc-=step (n<=16), chained x+=b;x-=c, three-term sums; operands built to satisfy the guard with the exact result targeted at the range boundary; oracle: exact model step by step (a step whose operand is already NaN is outside the property and the case is skipped); non-trivial = a step overflows or the result is within 2^17 of +-MAXF",
   c01_shape_check, 28, c01_shape_decode, nullptr });
 
 // ---- C01.const: generated programs in which one operand is a compile-time constant -------------
